@@ -54,5 +54,16 @@ C09_Step ==
 \* everything issued or accepted so far is below the clock or equal to it
 C09_HiBelowClock == hi # None => Le(hi, clock) \/ (hi[1] = clock[1] /\ hi[2] <= clock[2])
 
+\* the field-wise form the TLAPS lemmas are stated in computes what HLC.tla computes (every transition of the grids)
+F == INSTANCE HLCFields
+C09_LemmaFormAgrees ==
+  [][ /\ op'.kind = "send" =>
+          /\ op'.ok = F!SendOkPre(clock[1], clock[2], op'.wall)
+          /\ op'.ok => clock' = <<F!SendTime(clock[1], op'.wall), F!SendCounter(clock[1], clock[2], op'.wall), clock[3]>>
+      /\ op'.kind = "recv" =>
+          /\ op'.ok = F!RecvOkPre(clock[1], clock[2], clock[3], op'.wall, op'.msg[1], op'.msg[2], op'.msg[3])
+          /\ op'.ok => clock' = <<F!RecvTime(clock[1], op'.wall, op'.msg[1]),
+                                  F!RecvBase(clock[1], clock[2], op'.wall, op'.msg[1], op'.msg[2]) + 1, clock[3]>> ]_vars
+
 PrintEdge == IF EmitEdges THEN PrintT(<<"EDGE", ToJson([op |-> op'])>>) ELSE TRUE
 =============================================================================
